@@ -1,6 +1,8 @@
 import UtilModel.Model.Sem
+import UtilModel.Lemmas.SemOrder
 import UtilModel.Lemmas.TieTactics
-/-! # package `sem`: the model agrees with `Ver.Compare` as translated from the source on this run -/
+/-! # package `sem`: the model agrees with `Ver.Compare`, `IsZero`, `Core`, `Next*`, `Latest` as translated from the source on this run -/
+set_option linter.unusedSimpArgs false
 namespace U.CodeTies
 open U
 
@@ -8,5 +10,76 @@ theorem compare_tie (v w : Sem.Ver) :
     v.compare w = Gen.sem_Compare Sem.comparePre v.major v.minor v.patch v.pre w.major w.minor w.patch w.pre := by
   unfold Sem.Ver.compare Gen.sem_Compare
   ifchain
+
+/-! ## `IsZero`, `Core`, `NextMajor/NextMinor/NextPatch` (`bits.Add64` carry → panic → `none`), `Latest`
+
+Results are compared as tuples of the `Ver` fields; every branch of both sides is split and each leaf closed
+arithmetically, so an explicit `== math.MaxUint64` guard instead of the carry, `>= 0` instead of `!= -1`, swapped
+`Compare` operands (antisymmetry) or reordered branches keep the ties true. -/
+
+/-- a `Ver` as the translation writes it: its fields in declaration order -/
+def verTuple (v : Sem.Ver) : Nat × Nat × Nat × List Nat × List Nat := (v.major, v.minor, v.patch, v.pre, v.build)
+
+/-- `panic` → `none` (the `Next*` methods return no error) -/
+def verOpt : Outcome Sem.Ver → Option (Nat × Nat × Nat × List Nat × List Nat)
+  | .ok v => some (verTuple v) | _ => none
+
+/-- leaves of a decision tree returning `Ver` tuples: equal results, or contradictory path conditions -/
+macro "verleaf" : tactic =>
+  `(tactic| first
+      | rfl
+      | omega
+      | (simp only [verOpt, verTuple, Option.some.injEq, Prod.mk.injEq, reduceCtorEq, and_true, true_and, bne_iff_ne, ne_eq, beq_iff_eq,
+           Bool.and_eq_true, Bool.or_eq_true, Bool.not_eq_true', decide_eq_true_eq, beq_eq_false_iff_ne, decide_eq_false_iff_not,
+           Nat.add_zero] at *
+         omega)
+      | (simp_all [verOpt, verTuple]; done)
+      | (simp_all [verOpt, verTuple]; omega))
+
+theorem isZero_ver_tie (v : Sem.Ver) : v.isZero = Gen.sem_IsZero v.major v.minor v.patch v.pre v.build := by
+  unfold Sem.Ver.isZero Gen.sem_IsZero
+  first
+    | rfl
+    | (rw [Bool.eq_iff_iff]
+       simp only [Bool.and_eq_true, Bool.or_eq_true, Bool.not_eq_true', beq_iff_eq, bne_iff_ne, ne_eq, beq_eq_false_iff_ne]
+       try (repeat' split)
+       all_goals first | omega | (simp_all; done) | (constructor <;> intro h <;> simp_all))
+
+theorem core_tie (v : Sem.Ver) : verTuple v.core = Gen.sem_Core v.major v.minor v.patch v.pre v.build := by
+  unfold Sem.Ver.core Gen.sem_Core
+  try (repeat' split)
+  all_goals verleaf
+
+theorem nextMajor_tie (v : Sem.Ver) (h : v.major < two64) :
+    verOpt v.nextMajor = Gen.sem_NextMajor v.major v.minor v.patch v.pre v.build := by
+  unfold Sem.Ver.nextMajor Gen.sem_NextMajor two64 at *
+  try simp only []
+  repeat' split
+  all_goals verleaf
+
+theorem nextMinor_tie (v : Sem.Ver) (h : v.minor < two64) :
+    verOpt v.nextMinor = Gen.sem_NextMinor v.major v.minor v.patch v.pre v.build := by
+  unfold Sem.Ver.nextMinor Gen.sem_NextMinor two64 at *
+  try simp only []
+  repeat' split
+  all_goals verleaf
+
+theorem nextPatch_tie (v : Sem.Ver) (h : v.patch < two64) :
+    verOpt v.nextPatch = Gen.sem_NextPatch v.major v.minor v.patch v.pre v.build := by
+  unfold Sem.Ver.nextPatch Gen.sem_NextPatch two64 at *
+  try simp only []
+  repeat' split
+  all_goals verleaf
+
+theorem latest_tie (v w : Sem.Ver) :
+    verTuple (v.latest w) = Gen.sem_Latest Sem.comparePre v.major v.minor v.patch v.pre v.build
+      w.major w.minor w.patch w.pre w.build := by
+  unfold Sem.Ver.latest Gen.sem_Latest
+  simp only [← compare_tie]
+  have hr := Sem.Ver.compare_range v w
+  try simp only [Sem.Ver.compare_antisymm w v]
+  generalize v.compare w = c at *
+  repeat' split
+  all_goals verleaf
 
 end U.CodeTies
